@@ -19,6 +19,7 @@ from __future__ import annotations
 
 import ast
 
+from ..astutil import first_stmt, last_stmt  # noqa: F401
 from ..astutil import (ancestors, call_name, calls_in, guards_of, norm, stmt_of, stores_to,
                        walk_no_nested)
 from ..cfg import CFG
@@ -133,13 +134,13 @@ def rule_track(ctx):
                     sibs = a.orelse if any(arm is s or _in(arm, s) for s in a.orelse) else a.body
                     break
             guard_ok = any(isinstance(s, ast.If) and norm(s.test) == 'not self.allow_overstep'
-                           and s.body and isinstance(s.body[0], ast.Raise) for s in sibs
+                           and isinstance(first_stmt(s.body), ast.Raise) for s in sibs
                            if s.lineno < c.lineno)
             ctx.ob('C15-R4', st_, 'overstep only when allowed', guard_ok,
                    '`if not self.allow_overstep: raise` precedes the overstep' if guard_ok else
                    'a step beyond the track is taken although overstepping is not allowed', line=c.lineno)
     neg = [n for n in walk_no_nested(st_.node) if isinstance(n, ast.If) and n.body
-           and isinstance(n.body[0], ast.Raise) and f'{p_from} < 0' in norm(n.test) and f'{p_step} < 0' in norm(n.test)]
+           and isinstance(first_stmt(n.body), ast.Raise) and f'{p_from} < 0' in norm(n.test) and f'{p_step} < 0' in norm(n.test)]
     ctx.ob('C15-R4', st_, 'negative distances refused', bool(neg),
            norm(neg[0].test) if neg else 'negative start distance or step is no longer refused', nontrivial=False)
     callers = callers_of(prog, m.func('GroundTrack._overstep'))
